@@ -369,7 +369,8 @@ CLAIMED = {
              "changed is a translator obligation re-derived from /repo's source on every run (harness/gen_cache_skeleton.py "
              "-> Generated/CacheSkeleton.lean: every lru_cache/cache-decorated function of the XPath package stores into "
              "nothing it receives; no function of _delb/xpath/ast.py outside the constructors stores into an expression "
-             "object; the memoised properties are the three known ones: c16_cache_sites, c16_ast_immutable). Cache-order "
+             "object, memoised properties included: c16_cache_sites, c16_ast_immutable; no function of the tokenizer and the "
+             "parser stores into anything it receives: c16_pipeline_pure). Cache-order "
              "independence is also exercised on the implementation (cold/warm lru caches, random orders, evaluate after "
              "parse, evaluation in other namespace contexts before).",
         note=TB + "CPython resource limits (recursion depth for very deep bracket nesting) are outside the model; strings are "
